@@ -415,6 +415,12 @@ class C33(core.Check):
             {'mode': 0, 'vars': [], 'groups': [{'pre': [], 'draws': [{'raw': 'U5'}]}]},
             {'mode': 9, 'vars': [], 'groups': [{'pre': ['WINDOW (0,0)-(100,100)'], 'draws': [{'raw': 'U5 R7'}]},
                                                {'pre': ['PSET (3,3)'], 'draws': [{'raw': 'D2'}, {'raw': 'NR4'}]}]},
+            # the DRAW pointer across statements, after an error, and across WINDOW on / off
+            {'mode': 9, 'vars': [], 'groups': [
+                {'pre': ['WINDOW (0,0)-(100,100)'], 'draws': [{'raw': 'S8 A1 C2 U5 R7'}, {'raw': 'BN D3 U100000'}]},
+                {'pre': ['WINDOW'], 'draws': [{'raw': 'D2'}, {'raw': 'NR4 Q'}]},
+                {'pre': ['WINDOW SCREEN (0,0)-(50,50)'], 'draws': [{'raw': 'E3'}]},
+                {'pre': ['WINDOW', 'LINE -(10,10)'], 'draws': [{'raw': 'F2'}]}]},
             {'mode': 7, 'vars': [], 'groups': [{'pre': ['VIEW (10,10)-(100,100)'], 'draws': [{'raw': 'BM0,0 F20 BH3 P1,15'}]}]},
             {'mode': 1, 'vars': [['S$', '$', {'c': [mv('U', 3), ['B', 0, False]]}]],
              'groups': [{'pre': [], 'draws': [{'c': [['N', 0, False], ['X', 0, False, 0, 'S$', 0], mv('R', 4)]}]}]},
@@ -618,6 +624,8 @@ class C33(core.Check):
         if r < 0.95:
             return ['WINDOW%s (%d,%d)-(%d,%d)' % (rng.choice(['', ' SCREEN']), rng.randrange(-50, 50),
                                                 rng.randrange(-50, 50), rng.randrange(60, 500), rng.randrange(60, 500))]
+        if r < 0.985:
+            return ['WINDOW']
         return ['WINDOW (0,0)-(100,100)', 'PSET (50,50)', 'WINDOW']
 
     def gen_cases(self, n):
@@ -870,7 +878,7 @@ class C33(core.Check):
                     if not depth:
                         caught.append(e.err)
                     raise
-            out, starts, stmts, group_outcomes, texts = [], [], [], [], []
+            out, starts, stmts, group_outcomes, texts, chain, marks = [], [], [], [], [], [], []
             stop = False
             try:
                 g._draw_line, g._draw_step, g._flood_fill, g._draw = rec_line, rec_step, rec_fill, rec_draw
@@ -881,6 +889,16 @@ class C33(core.Check):
                     for st in grp['pre']:
                         s.execute(st)
                     starts.append(self._gstate(g))
+                    # a later group that is preceded only by WINDOW statements: the model continues from its own
+                    # state (history step SWindow) and the state observed here is part of the compared output
+                    chained = bool(starts[:-1]) and bool(grp['pre']) and not g._mode.is_text_mode and \
+                        all(p.startswith('WINDOW') for p in grp['pre'])
+                    chain.append(chained)
+                    if chained:
+                        g0 = starts[-1]
+                        out += (g0['cur'] if g0['cur'] is not None else g0['last']) + g0['last'] + \
+                            [g0['scale'], g0['angle'], g0['attr']]
+                        marks.append(len(stmts))
                     del outcomes[:]
                     gtexts = []
                     for src in grp['draws']:
@@ -933,7 +951,8 @@ class C33(core.Check):
             if stop:
                 self._drop_session()
         return {'out': out, 'starts': starts, 'pixels': pixels, 'stmts': stmts, 'stopped': stop,
-                'outcomes': group_outcomes, 'texts': texts, 'ptrs': ptrs, 'var_texts': var_texts}
+                'outcomes': group_outcomes, 'texts': texts, 'ptrs': ptrs, 'var_texts': var_texts, 'chain': chain,
+                'marks': marks}
 
     @staticmethod
     def _pixels(s):
@@ -997,13 +1016,19 @@ class C33(core.Check):
                     tab[core.zl([0] + [ord(ch) for ch in p])] = term
         env = ['(%s, %s)' % (k, tab[k]) for k in sorted(tab)]
         parts = []
-        for g0, gtexts, outs in zip(run['starts'], run['texts'], run['outcomes']):
+        first = None
+        for g0, gtexts, outs, chained in zip(run['starts'], run['texts'], run['outcomes'], run['chain']):
             strs = '[' + '; '.join(zbytes(t) for t in gtexts) + ']'
-            parts.append('(%s, %s)' % (coq_gstate(g0, outs), strs))
+            if first is None:
+                first = coq_gstate(g0, outs)
+            if chained:
+                parts.append('(inr (%s, %s), %s)' % ('true' if g0['window'] else 'false', core.zl(outs), strs))
+            else:
+                parts.append('(inl %s, %s)' % (coq_gstate(g0, outs), strs))
         if not parts:
             return '(@nil Z)'
         # a statement that ends Excluded stops the whole case (the adapter stops there too)
-        return '(draw_groups draw_max_depth [%s] [%s])' % ('; '.join(env), '; '.join(parts))
+        return '(draw_groups_chain draw_max_depth [%s] %s [%s])' % ('; '.join(env), first, '; '.join(parts))
 
     # ---------------------------------------------------------------------------------------------
     # oracle
@@ -1040,6 +1065,13 @@ class C33(core.Check):
             if gi >= len(run['starts']):
                 break
             g0 = run['starts'][gi]
+            if gi < len(run['chain']) and run['chain'][gi] and k > 0:
+                # WINDOW on/off between DRAW statements leaves the DRAW pointer, scale, angle and colour alone
+                prev = run['stmts'][k - 1]
+                pen0 = g0['cur'] if g0['cur'] is not None else g0['last']
+                if pen0 != prev['pen'] or g0['last'] != prev['gs']['last'] or \
+                        (g0['scale'], g0['angle'], g0['attr']) != (prev['gs']['scale'], prev['gs']['angle'], prev['gs']['attr']):
+                    return 'WINDOW between DRAW statements changed the DRAW state: pen %r -> %r' % (prev['pen'], pen0)
             ref = Ref(tabs, g0, run['outcomes'][gi] if gi < len(run['outcomes']) else [])
             known = True
             reqs = []
@@ -1091,7 +1123,8 @@ class C33(core.Check):
             expected.append(reqs)
         # POINT deviation markers
         pos = 0
-        for st in run['stmts']:
+        for si, st in enumerate(run['stmts']):
+            pos += 7 * run['marks'].count(si)
             nreq = len(st['reqs'])
             rec = out[pos:pos + 14 + 6 * nreq]
             pos += 14 + 6 * nreq
